@@ -41,3 +41,49 @@ Proof.
   intros H. unfold upgrade_id. destruct v as [|b v]; [reflexivity|].
   unfold new_id. now rewrite new_field_reject.
 Qed.
+
+(* ---- round trips through the encoding side ---------------------------------------------------- *)
+Lemma marshal_text_unset_errors : marshal_text None = None.
+Proof. reflexivity. Qed.
+
+Lemma text_roundtrip f : field_wf f -> is_set f = true ->
+  exists b, marshal_text f = Some b /\ unmarshal_text b = (f, false).
+Proof.
+  intros Hwf Hset. destruct f as [v|]; [|discriminate]. exists v. split; [reflexivity|].
+  unfold unmarshal_text. apply new_field_accept. now apply Hwf.
+Qed.
+
+Lemma value_scan_roundtrip f : field_wf f ->
+  scan (field_value f) = (f, false) /\ scan (field_value_bytes f) = (f, false).
+Proof.
+  intros Hwf. destruct f as [v|]; cbn [field_value field_value_bytes scan]; [|split; reflexivity].
+  split; apply new_field_accept; now apply Hwf.
+Qed.
+
+Lemma json_roundtrip f enc : field_wf f ->
+  (is_set f = true -> bytes_eqb enc json_null = false) ->
+  unmarshal_json (marshal_json f enc) (if is_set f then Some (value f) else None) = (f, false).
+Proof.
+  intros Hwf Henc. destruct f as [v|]; cbn [marshal_json is_set value]; unfold unmarshal_json.
+  - rewrite (Henc eq_refl). apply new_field_accept. now apply Hwf.
+  - replace (bytes_eqb json_null json_null) with true; [reflexivity|]. symmetry. apply bytes_eqb_refl.
+Qed.
+
+(* every construction route yields a well-formed field *)
+Lemma new_field_wf v : field_wf (fst (new_field v)).
+Proof.
+  intros w H. destruct (new_field v) as [f e] eqn:E. cbn [fst] in H. subst f.
+  exact (new_field_single v (Some w) e E eq_refl).
+Qed.
+Lemma scan_wf src : field_wf (fst (scan src)).
+Proof.
+  intros w H. destruct (scan src) as [f e] eqn:E. cbn [fst] in H. subst f.
+  exact (scan_single src (Some w) e E eq_refl).
+Qed.
+Lemma unmarshal_json_wf d s : field_wf (fst (unmarshal_json d s)).
+Proof.
+  intros w H. destruct (unmarshal_json d s) as [f e] eqn:E. cbn [fst] in H. subst f.
+  exact (unmarshal_json_single d s (Some w) e E eq_refl).
+Qed.
+Lemma upgrade_id_wf h : field_wf (upgrade_id h).
+Proof. intros w H. pose proof (upgrade_id_single h) as S. rewrite H in S. exact (S eq_refl). Qed.
